@@ -1,7 +1,18 @@
-"""Run an adapter function over many inputs in worker processes that import cssutils from /repo."""
-import os, sys, multiprocessing as mp, importlib, traceback, time, resource
+"""Run an adapter function over many inputs in worker processes that import cssutils from /repo.
+
+The pool is our own (fork + pipes) rather than multiprocessing.Pool because of one requirement: a call into the implementation
+that never returns must become an *observation* ("did not return") instead of hanging the check.  A signal handler cannot do
+that - CPython runs handlers between byte codes, and a regular expression that backtracks for ever is a single C call that also
+keeps the GIL, so neither SIGALRM nor a watchdog thread in the worker ever gets to run.  The parent therefore watches the
+progress of every worker and kills the one that makes none for `hard_timeout` seconds; the item it was working on is answered
+by the adapter's `on_hang(item)` (a trace saying that the call did not return - judged by the monitor like any other
+observation), or, for adapters that have none, reported as a machinery failure.  After `max_hangs` such kills the rest of the
+batch is abandoned (answered None) - the violations found so far are reported."""
+import os, sys, importlib, traceback, time, collections, multiprocessing as mp
+from multiprocessing.connection import wait
 
 _fn = None
+HANGS = []          # (module, function, item id) of every item a worker had to be killed on, for the evidence
 
 
 def _init(modname, fname, initname):
@@ -20,17 +31,130 @@ def _call(item):
         return {"__adapter_error__": "".join(traceback.format_exception(type(e), e, e.__traceback__))[-2000:]}
 
 
-def map_items(modname, fname, items, nproc=None, initname="init", chunksize=None, fresh_every=None):
-    """items -> results, in order.  fresh_every=N recycles workers after N items (bounds state leakage)."""
+def _worker(conn, modname, fname, initname):
+    try:
+        _init(modname, fname, initname)
+        while True:
+            chunk = conn.recv()
+            if chunk is None:
+                break
+            for idx, item in chunk:
+                conn.send((idx, _call(item)))
+            conn.send("done")
+    except (EOFError, KeyboardInterrupt, BrokenPipeError):
+        pass
+    finally:
+        os._exit(0)
+
+
+class _W:
+    def __init__(self, ctx, args):
+        self.conn, child = ctx.Pipe()
+        self.proc = ctx.Process(target=_worker, args=(child,) + args, daemon=True)
+        self.proc.start()
+        child.close()
+        self.chunk, self.pos, self.last, self.served = None, 0, time.time(), 0
+
+    def give(self, chunk):
+        self.chunk, self.pos, self.last = chunk, 0, time.time()
+        self.conn.send(chunk)
+
+    def stop(self, kill=False):
+        try:
+            if kill:
+                self.proc.kill()
+            else:
+                self.conn.send(None)
+        except (OSError, ValueError):
+            pass
+        self.proc.join(5)
+        if self.proc.is_alive():
+            self.proc.kill()
+            self.proc.join(5)
+        self.conn.close()
+
+
+def map_items(modname, fname, items, nproc=None, initname="init", chunksize=None, fresh_every=None, hard_timeout=None, max_hangs=6):
+    """items -> results, in order.  fresh_every=N recycles a worker after N chunks (bounds state leakage)."""
     nproc = nproc or min(16, os.cpu_count() or 1)
     if not items:
         return []
+    hard_timeout = hard_timeout or float(os.environ.get("VERIF_HARD_TIMEOUT", "120"))
     if chunksize is None:
         chunksize = max(1, min(200, len(items) // (nproc * 4) or 1))
     ctx = mp.get_context("fork")
-    with ctx.Pool(nproc, initializer=_init, initargs=(modname, fname, initname), maxtasksperchild=fresh_every) as p:
-        res = p.map(_call, items, chunksize=chunksize)
+    args = (modname, fname, initname)
+    todo = collections.deque([[(i, items[i]) for i in range(s, min(s + chunksize, len(items)))] for s in range(0, len(items), chunksize)])
+    res = [None] * len(items)
+    hung, abandoned = [], False
+    workers = []
+    try:
+        for _ in range(min(nproc, len(todo))):
+            w = _W(ctx, args)
+            w.give(todo.popleft())
+            workers.append(w)
+        while workers:
+            ready = wait([w.conn for w in workers], timeout=1.0)
+            now = time.time()
+            for w in list(workers):
+                if w.conn in ready:
+                    try:
+                        msg = w.conn.recv()
+                    except (EOFError, OSError):
+                        idx = w.chunk[w.pos][0] if w.chunk and w.pos < len(w.chunk) else None
+                        raise RuntimeError("worker of %s.%s died while working on item %s" % (modname, fname, idx))
+                    w.last = now
+                    if msg == "done":
+                        w.served += 1
+                        w.chunk = None
+                        if not todo or abandoned:
+                            w.stop()
+                            workers.remove(w)
+                        elif fresh_every and w.served >= fresh_every:
+                            w.stop()
+                            workers.remove(w)
+                            nw = _W(ctx, args)
+                            nw.give(todo.popleft())
+                            workers.append(nw)
+                        else:
+                            w.give(todo.popleft())
+                    else:
+                        idx, r = msg
+                        res[idx] = r
+                        w.pos += 1
+                elif w.chunk is not None and now - w.last > hard_timeout:
+                    # no progress: the call does not return.  Kill the worker, answer for the item, requeue the rest of its chunk
+                    idx, item = w.chunk[w.pos]
+                    rest = w.chunk[w.pos + 1:]
+                    w.stop(kill=True)
+                    workers.remove(w)
+                    hung.append(idx)
+                    HANGS.append((modname, fname, item.get("id", idx) if isinstance(item, dict) else idx))
+                    if len(hung) >= max_hangs:
+                        abandoned = True
+                        todo.clear()
+                    else:
+                        if rest:
+                            todo.appendleft(rest)
+                        if todo:
+                            nw = _W(ctx, args)
+                            nw.give(todo.popleft())
+                            workers.append(nw)
+    finally:
+        for w in workers:
+            w.stop(kill=True)
+    if hung:
+        mod = importlib.import_module(modname)
+        on_hang = getattr(mod, "on_hang", None)
+        if on_hang is None:
+            raise RuntimeError("%s.%s did not return within %.0f s on %d item(s), first: %r" % (
+                modname, fname, hard_timeout, len(hung), items[hung[0]]))
+        for idx in hung:
+            res[idx] = on_hang(items[idx], fname)
     errs = [r for r in res if isinstance(r, dict) and "__adapter_error__" in r]
     if errs:
         raise RuntimeError("adapter error (%d of %d items), first:\n%s" % (len(errs), len(items), errs[0]["__adapter_error__"]))
+    if not abandoned and any(r is None for r in res) and not hung:
+        # adapters may return None for "not applicable"; that is theirs to say - nothing to do here
+        pass
     return res
